@@ -131,6 +131,8 @@ TEXTS = ['', 'a', 'abc', 'ABC', 'a?c', 'a*', '~*x', '10', '1.5', 'nan', 'x[1]', 
          # texts with a line break, a tab, a carriage return (Alt+Enter labels): wildcards run over them like over any character
          'a\nbc', 'Total\n2024', 'a\tc', 'a\r\nc', 'ab\n', '\n']
 DATES = [dt.datetime(2024, 1, 31), dt.datetime(2024, 2, 29), dt.datetime(2023, 12, 31, 23, 59), dt.datetime(2020, 2, 29), dt.datetime(2024, 3, 1)]
+# the edges of the calendar, for the functions that move by months (not for NETWORKDAYS: eight thousand years of days)
+EDGE_DATES = [dt.datetime(9999, 12, 1), dt.datetime(9999, 11, 30), dt.datetime(9999, 12, 31), dt.datetime(9999, 1, 31), dt.datetime(1, 1, 15), dt.datetime(1, 2, 28), dt.datetime(1900, 1, 31)]
 SPAN = [dt.datetime(2024, 1, 1) + dt.timedelta(days=d) for d in (0, 4, 5, 6, 7, 13, 30, 59, 60, 61, 90)]
 
 
@@ -159,7 +161,7 @@ def synth(name, rng, n):
         '_rounddown': lambda: (P(NUMS + [B]), P([-2, 0, 1, 3])), '_decimal_round': lambda: (P(NUMS), P([-1, 0, 2]), P(['ROUND_HALF_UP', 'ROUND_UP', 'ROUND_DOWN'])),
         '_date': lambda: (P([1900, 2024, 99, -1, 10000, '2024', 'x']), P([-13, 0, 1, 2, 12, 13, 25, '3']), P([-400, -1, 0, 1, 28, 31, 32, 366, '5'])),
         '_datedif': lambda: (P(DATES + [1]), P(DATES + ['x']), P(['Y', 'M', 'D', 'MD', 'YM', 'YD', 'Q'])),
-        '_edate': lambda: (P(DATES + [5]), P([-14, -1, 0, 1, 1.9, 13, 'x'])), '_eomonth': lambda: (P(DATES + [5]), P([-14, -1, 0, 1, 1.9, 13])),
+        '_edate': lambda: (P(DATES + EDGE_DATES + [5]), P([-14, -1, 0, 1, 1.9, 13, 11, 'x'])), '_eomonth': lambda: (P(DATES + EDGE_DATES + [5]), P([-14, -1, 0, 1, 1.9, 13, 11])),
         '_network_days': lambda: (P(DATES + SPAN + [1]), P(DATES + SPAN), P([None, [[DATES[0]], [B], ['x']], [[DATES[1], DATES[4]]], holidays(rng), holidays(rng)])),
         '_left': lambda: (P(TEXTS), P([None, -1, 0, 1, 2, 10])), '_right': lambda: (P(TEXTS), P([None, -1, 0, 1, 2, 10])),
         '_mid': lambda: (P(TEXTS), P([-1, 0, 1, 2, 5]), P([-1, 0, 1, 3])),
@@ -183,7 +185,7 @@ def synth(name, rng, n):
         '_concat_arrays_values': lambda: (P([[1, 2], ['a'], []]), P([[3], ['b', 'c'], [B]])), '_when_cell_is_empty_cast_to_zero': lambda: ([P(scal) for _ in range(4)],),
         '_binary_search': lambda: (P([[[1], [3], [5], [7]], [[7], [5], [1]], [[2]]]), P([0, 1, 4, 5, 9]), P([False, True])),
         '_parse_date_obj': lambda: (P(TEXTS + DATES + [5, None]),), '_parse_date_formats': lambda: (P(['31/01/2024', '2024-01-31', 'x']), P(['%d/%m/%Y', '%Y-%m-%d'])),
-        '_day': lambda: (P(DATES + [1]),), '_month': lambda: (P(DATES + ['x']),), '_year': lambda: (P(DATES),),
+        '_day': lambda: (P(DATES + EDGE_DATES + [1]),), '_month': lambda: (P(DATES + ['x']),), '_year': lambda: (P(DATES + EDGE_DATES),),
         '_to_number': lambda: (P(scal),), '_to_float': lambda: (P(scal),), '_today': lambda: (),
         '_sum_if': lambda: (P([COL, TABLE]), P([lambda x: x == 3, lambda x: isinstance(x, int) and x > 1, lambda x: True]), P([COL, [[10], [20], [30]], TABLE])),
         '_sumifs': lambda: ([[10], [20], [30]], [[1], [2], [B]], P([lambda x: x > 0, lambda x: x == 0]), *P([(), ([['a'], ['b'], ['a']], lambda x: x == 'a'), ([[1], [2]], lambda x: True)])),
